@@ -19,7 +19,7 @@ def main():
             if only and cfg.get("mode") not in only:
                 continue
             t0 = time.time()
-            r = verify.run_config(K, cfg, facets="VCSTRNKEGL", tier=tier)
+            r = verify.run_config(K, cfg, facets="VCSTRNKEGLF", tier=tier)
             n = len(r["obligations"])
             nb = 0
             lines = []
